@@ -87,6 +87,10 @@ func Corpus() []Scenario {
 			{Op: "kill", A: 0}, {Op: "finish", A: 0, Out: "dead"},
 			{Op: "step", A: ActRun0, Until: "pool.dead.enter"}, {Op: "step", A: 0}, {Op: "step", A: 0},
 			{Op: "step", A: ActRun0}, {Op: "step", A: 0}, {Op: "step", A: 0}})},
+		// environment not strict: the connection reports the retryable dead error while its Run is alive
+		// (as pool_test.go's invokeErrConn does); the replacement runs next to the old connection
+		{Name: "h:dead-error-before-run-exit", Max: 1, Callers: 1, Loose: true, Ops: cat(hold(0, 0), []Op{
+			{Op: "finish", A: 0, Out: "dead"}, {Op: "step", A: 0}, {Op: "step", A: 0}, {Op: "step", A: 0}})},
 		{Name: "f:death-while-in-channel", Max: 1, Callers: 2, Ops: cat(hold(0, 0), []Op{
 			{Op: "start", A: 1}, {Op: "step", A: 1, Until: "pool.acq.wait"},
 			{Op: "finish", A: 0, Out: "ok"}, {Op: "step", A: 0, Until: "h.ret"},
